@@ -1,8 +1,9 @@
 #!/bin/bash
 # Run every quick check against every behaviour-preserving refactoring under /verif/preserving (each applied to a
-# scratch copy of /repo); every check must stay silent.  usage: tools/falsealarm.sh [jobs]
+# scratch copy of /repo); every check must stay silent.  usage: [CHECKS="C04 C09"] tools/falsealarm.sh [jobs]
 cd "$(dirname "$0")/.."
 J=${1:-3}
-run() { out=$(tools/seedtest.py "$1/patch.diff" C01 C02 C03 C04 C05 C06 C07 C08 C09 C10 C11 C12 C13 C14 C15 C16 C17 C18 C19 C20 2>&1 | grep -E "^C[0-9]+: (DETECTED|HARNESS)|PATCH FAILED" | tr '\n' ' '); echo "$(basename $1): ${out:-all silent}"; }
+export CHECKS=${CHECKS:-C01 C02 C03 C04 C05 C06 C07 C08 C09 C10 C11 C12 C13 C14 C15 C16 C17 C18 C19 C20}
+run() { out=$(tools/seedtest.py "$1/patch.diff" $CHECKS 2>&1 | grep -E "^C[0-9]+: (DETECTED|HARNESS)|PATCH FAILED" | tr '\n' ' '); echo "$(basename $1): ${out:-all silent}"; }
 export -f run
 ls -d preserving/*/ | xargs -P "$J" -I{} bash -c 'run {}'
